@@ -1189,7 +1189,7 @@ func init() {
 	mc.Register(&mc.Prop{
 		ID:    "C13",
 		Level: "exploration",
-		Rule: cliStreamRule[1:] + "(Free-running complement under the race detector: 8 goroutines doing this property's operations on objects of their own must get the values the same work gives alone.)  " + "(also: Compress and Deduplicate on 3-row alignments of every length within 2 of 256, 512, 768, 1000, 1024, 2000, 2048; Compress on every 2x3 and 2x4 [thorough 3x3] alignment over {M,L,N,-}, {A,B,N,-}, {A,B,R,-}, {A,B,C,D}, letter sets in which two different columns collide under the usual polynomial string hashes and byte sums; every one-column alignment of 13..16 rows over {A,C}; Deduplicate on rows of 8..24 residues holding the wildcard followed by the letter whose code is one above it (N O, X Y, both cases) at every position, beside the same row with gaps there, both nAsGap values; Compress on 1 and 2 rows in which one pattern occurs 65535..65538 and 131073 times; Deduplicate on n pairwise distinct rows, n within -1..+2 of 64, 100, 128, 200, 256, 400, 1024, followed by (or interleaved every 50 rows with) duplicates of the first, middle, 100th, 101st and last of them; Compress and Deduplicate on 3x4500 and 40x30 alignments against the oracle and under the controlled scheduler, preemption bound 1 — one execution unless the operation spawns goroutines;) bounded-exhaustive enumeration, nucleotide letters {A,-,N,C,X} / protein letters {A,-,X,C,N} taken as the first k of that list, rows named q,b,z,a,m,c,... with distinct comments. " +
+		Rule: cliStreamRule[1:] + "Command line: goalign dedup on 4 sets x --n-as-gap x --unaligned x sequences to a file / to standard output x log plain / .gz: the sequences written are those Deduplicate keeps, the log holds the groups it reports. (Free-running complement under the race detector: 8 goroutines doing this property's operations on objects of their own must get the values the same work gives alone.)  " + "(also: Compress and Deduplicate on 3-row alignments of every length within 2 of 256, 512, 768, 1000, 1024, 2000, 2048; Compress on every 2x3 and 2x4 [thorough 3x3] alignment over {M,L,N,-}, {A,B,N,-}, {A,B,R,-}, {A,B,C,D}, letter sets in which two different columns collide under the usual polynomial string hashes and byte sums; every one-column alignment of 13..16 rows over {A,C}; Deduplicate on rows of 8..24 residues holding the wildcard followed by the letter whose code is one above it (N O, X Y, both cases) at every position, beside the same row with gaps there, both nAsGap values; Compress on 1 and 2 rows in which one pattern occurs 65535..65538 and 131073 times; Deduplicate on n pairwise distinct rows, n within -1..+2 of 64, 100, 128, 200, 256, 400, 1024, followed by (or interleaved every 50 rows with) duplicates of the first, middle, 100th, 101st and last of them; Compress and Deduplicate on 3x4500 and 40x30 alignments against the oracle and under the controlled scheduler, preemption bound 1 — one execution unless the operation spawns goroutines;) bounded-exhaustive enumeration, nucleotide letters {A,-,N,C,X} / protein letters {A,-,X,C,N} taken as the first k of that list, rows named q,b,z,a,m,c,... with distinct comments. " +
 			"DEDUP on alignments: every n x L matrix for n<=4, L<=2 (k=5), n<=3, L=3 (k=4), 4x3 (k=3), 5x1, 6x1, 2x4 (k=4), 5x2, 6x2, 2x5, 3x4 (k=3), and the alignment without rows; thorough adds 4x3, 3x4, 5x2, 6x2, 2x5 (k=4), 2x6, 7x2, 5x3 (k=3), 3x3 (k=5). " +
 			"DEDUP on sequence sets (ragged): every n-tuple of strings of length 0..m for (n,m,k) = (1..3,3,4), (4,2,4), (5,2,3), (3,2,5), and the set without sequences; thorough adds (4,3,3), (5,2,4), (3,4,3). " +
 			"Every dedup input is run for both alphabets and both nAsGap values, Deduplicate applied twice. " +
@@ -1203,9 +1203,9 @@ func init() {
 		},
 		// free-running complement: goroutines that each own their objects must get what they get alone (harness/racepass)
 		Post:  func(m *mc.Master) { m.RacePass("own-dedup") },
-		Tasks: func(tier string) []mc.Task { return append(c13Tasks(tier), cliStreamTasks("C13")...) },
+		Tasks: func(tier string) []mc.Task { return append(append(c13Tasks(tier), cliStreamTasks("C13")...), c13CLITasks()...) },
 		Replay: func(c *mc.Ctx, payload json.RawMessage) {
-			if cliStreamReplay(c, payload) {
+			if cliStreamReplay(c, payload) || c13CLIReplay(c, payload) {
 				return
 			}
 			var cs c13Case
